@@ -1384,3 +1384,120 @@ func ruleBalanceMapCoversReadyWallets(c *report.Ctx) {
 		c.Fail("AddRelevantTx", "no call of TxStore.AddRelevantTx with a balance map found (anchor lost)", "")
 	}
 }
+
+// ruleBalanceLookupPresence (C19, C08): a running balance is looked up in a way that cannot yield the zero Amount.
+func ruleBalanceLookupPresence(c *report.Ctx) {
+	p := c.P
+	c.Rule("balance-lookup-presence", "every lookup in a map[string]massutil.Amount whose result is used (Add / Sub on it dereference the pointer inside the Amount) is safe against a missing row: it is a comma-ok lookup used under ok, or its key is the wallet of a relevant input/output (RelevantMeta.WalletId — the ready wallets, which balance-map-covers-ready-wallets puts into the map), or it runs under `existsUnspent(…) != nil` (the wallet still has unspent rows: removal deletes them together with the balance row). A managed keystore can lack a balance row — a wallet under removal between its steps — and a rollback touching it must neither panic nor re-create its records", 4)
+	eu := fn(c, pkgTxmgr, "", "existsUnspent")
+	rm := p.Type(pkgTxmgr, "RelevantMeta")
+	n := 0
+	for _, f := range p.ModFuncs {
+		pk := an.FuncPkg(f)
+		if pk == nil || !(pk.Path() == pkgTxmgr || pk.Path() == pkgWallet) {
+			continue
+		}
+		cnt := 0
+		an.Instrs(f, func(in ssa.Instruction) {
+			lk, ok := in.(*ssa.Lookup)
+			if !ok {
+				return
+			}
+			mt, ok := lk.X.Type().Underlying().(*types.Map)
+			if !ok || !strings.HasSuffix(mt.Elem().String(), "massutil.Amount") {
+				return
+			}
+			n++
+			cnt++
+			key := siteKey(f, "balances[k]", cnt)
+			if lk.CommaOk {
+				// every use of the value component is under ok == true
+				var okv, val ssa.Value
+				for _, r := range *lk.Referrers() {
+					if ex, isEx := r.(*ssa.Extract); isEx {
+						if ex.Index == 1 {
+							okv = ex
+						} else {
+							val = ex
+						}
+					}
+				}
+				bad := false
+				if val != nil && val.Referrers() != nil {
+					for _, r := range *val.Referrers() {
+						if _, dbg := r.(*ssa.DebugRef); dbg {
+							continue
+						}
+						if okv == nil || !an.AnyAtom(p.GuardsOf(r), func(a an.Atom) bool { return a.Op == token.ILLEGAL && a.Truth && a.X == okv }) {
+							bad = true
+						}
+					}
+				}
+				if bad {
+					c.Fail(key, "the value of a comma-ok balance lookup is used where ok is not known to be true: for a wallet without a balance row (under removal) the zero Amount is dereferenced", posOf(c, in))
+				} else {
+					c.OK(key, "comma-ok lookup, value used under ok", posOf(c, in))
+				}
+				return
+			}
+			if ld, isLd := lk.Index.(*ssa.UnOp); isLd && rm != nil && isFieldLoad(ld, rm, "WalletId") {
+				c.OK(key, "key is the wallet of a relevant input/output (a ready wallet)", posOf(c, in))
+				return
+			}
+			if eu != nil && an.AnyAtom(p.GuardsOf(in), func(a an.Atom) bool {
+				if a.Op != token.NEQ || a.X == nil || a.Y == nil || !an.IsNilConst(a.Y) {
+					return false
+				}
+				ex, isEx := a.X.(*ssa.Extract)
+				if !isEx {
+					return false
+				}
+				call, isCall := ex.Tuple.(*ssa.Call)
+				return isCall && call.Call.StaticCallee() == eu
+			}) {
+				c.OK(key, "under existsUnspent(…) != nil: the wallet still has its unspent rows, hence its balance row", posOf(c, in))
+				return
+			}
+			c.Fail(key, "a running balance is looked up by a key that need not be in the map and the result is used without a presence test: for a managed wallet that has no balance row (its removal is between two steps) the lookup yields the zero Amount, whose Add/Sub dereference a nil pointer — the follower panics inside its write transaction on a chain event (a reorganisation touching that wallet's coins)", posOf(c, in), p.Desc(lk.Index))
+		})
+	}
+	if n == 0 {
+		c.Fail("balance-lookups", "no balance map lookup found (anchor lost)", "")
+	}
+}
+
+// ruleNoNewRowsForRemovedWallet (C08): client requests do not add per-wallet rows to a wallet whose removal is under way.
+func ruleNoNewRowsForRemovedWallet(c *report.Ctx) {
+	p := c.P
+	c.Rule("no-new-rows-for-removed-wallet", "a call of UtxoStore.PutNewAddress made for the selected wallet (a function that takes the wallet from KeystoreManager.CurrentKeystore) runs under a `!IsRemoved()` test of that wallet's status: a wallet stays selected while the worker removes it step by step, and the address rows are deleted in the first step — a row written afterwards survives the removal. (The import paths write rows of a wallet they have just created in the same transaction; it cannot be under removal.)", 1)
+	pna := fn(c, pkgTxmgr, "UtxoStore", "PutNewAddress")
+	cur := fn(c, pkgKeystore, "KeystoreManager", "CurrentKeystore")
+	removed := fn(c, pkgTxmgr, "WalletStatus", "IsRemoved")
+	if pna == nil || cur == nil || removed == nil {
+		return
+	}
+	n := 0
+	for _, f := range p.ModFuncs {
+		if pk := an.FuncPkg(f); pk == nil || pk.Path() != pkgWallet {
+			continue
+		}
+		owner := apiOwnerOrSelf(p, f)
+		for i, s := range calls(f, pna) {
+			usesSelected := len(calls(owner, cur)) > 0
+			key := siteKey(f, "PutNewAddress~!IsRemoved", i+1)
+			if !usesSelected {
+				c.OK(key, "not for the selected wallet (a wallet created in this transaction)", posOf(c, s))
+				continue
+			}
+			n++
+			if an.AnyAtom(p.GuardsOf(s), func(a an.Atom) bool { return an.BoolCall(a, removed, "", false) }) {
+				c.OK(key, "under !IsRemoved()", posOf(c, s))
+			} else {
+				c.Fail(key, "an address row is written for the selected wallet without testing that the wallet is not being removed: issued between two removal steps, the row outlives the wallet (a record keyed by the removed wallet remains)", posOf(c, s))
+			}
+		}
+	}
+	if n == 0 {
+		c.Fail("PutNewAddress(selected)", "no address row writer for the selected wallet found (anchor lost)", "")
+	}
+}
